@@ -36,7 +36,7 @@ def main(tier, seed):
     chk = Check("C13", tier, seed)
     chk.assumptions = list(ASSUMPTIONS)
     c13.obligations(chk)
-    if tier == "thorough":
+    if tier in ("quick", "thorough"):      # the replay on the real code takes < 1 s: run it in both tiers (never counted as proved)
         fails, n, d = c13_concrete.search(stop_at=3)
         chk.bounded.append({"name": "bounded cross-check: pass-through over the type pool (+ adversarial text values) and idempotence over the C03 input pool",
                             "evaluations": n, "distinct_nontrivial": d, "failures": len(fails),
